@@ -1141,7 +1141,7 @@ impl World for MemWorld {
         let live: Vec<usize> = (0..SLOTS).filter(|i| self.slots[*i].is_some()).collect();
         let free: Vec<usize> = (0..SLOTS).filter(|i| self.slots[*i].is_none()).collect();
         let locks_left = self.lock_requests_seen < MAX_LOCK_REQUESTS;
-        let pages_ok = self.locked_pages_model() + 3 <= MAX_LOCKED_PAGES;
+        let pages_ok = self.locked_pages_model() + 4 <= MAX_LOCKED_PAGES;
         // weights: new, trans, clone, resize, write, read, drop, alloc, dealloc
         let mut w = [0u32; 9];
         if !free.is_empty() {
@@ -1171,6 +1171,8 @@ impl World for MemWorld {
             }
             _ => {}
         }
+        // lengths above glibc's mmap threshold (128 KiB): only for containers that are not locked
+        let pick_huge = |rng: &mut Rng| -> usize { *rng.pick(&[131072usize, 131073, 140000, 200000, 262145]) };
         let pick_len = |rng: &mut Rng| -> usize {
             match rng.below(10) {
                 0..=6 => *rng.pick(&ARRAY_LENS),
@@ -1204,6 +1206,7 @@ impl World for MemWorld {
                 let len = match array {
                     Some(n) => n,
                     None if ctor.composite() => 32,
+                    None if ctor == Ctor::Plain && rng.chance(1, 12) => pick_huge(rng),
                     None => pick_len(rng),
                 };
                 Some(Event::New { slot, ctor, array, len, fill: rng.next_u64() % 1000 })
@@ -1213,7 +1216,7 @@ impl World for MemWorld {
                 let r = self.slots[slot].as_ref().unwrap();
                 let h = r.h.as_ref().unwrap();
                 let mut ts: Vec<Trans> = [Trans::Mlock, Trans::Munlock, Trans::ReadOnly, Trans::ReadWrite, Trans::NoAccess].iter().copied().filter(|t| h.offers(*t)).collect();
-                if !(locks_left && pages_ok) {
+                if !(locks_left && pages_ok) || r.len > 3 * 4096 {
                     ts.retain(|t| *t != Trans::Mlock);
                 }
                 if ts.is_empty() {
@@ -1239,11 +1242,18 @@ impl World for MemWorld {
                     return Some(Event::Read { slot });
                 }
                 let cur = self.slots[slot].as_ref().unwrap().len;
-                let len = match rng.below(6) {
+                let len = match rng.below(if locked { 6 } else { 7 }) {
                     0 => 0,
                     1 => cur / 2,
                     2 => cur + 1 + rng.usize_below(64),
                     3 => cur + 4096,
+                    6 => {
+                        if rng.chance(1, 3) {
+                            pick_huge(rng)
+                        } else {
+                            cur.saturating_sub(1 + rng.usize_below(64))
+                        }
+                    }
                     _ => pick_len(rng),
                 };
                 Some(Event::Resize { slot, len })
@@ -1317,7 +1327,7 @@ impl World for MemWorld {
                         out.note(&format!("new {} -> unwind", evkind));
                         path_hint = "error_path";
                         if ctor.fallible() {
-                            let cont = Self::kind_of(*array, false);
+                            let cont = if ctor.composite() { "composite".to_string() } else { Self::kind_of(*array, false) };
                             if under_plan {
                                 out.violate("C19", "c19.panic", site(&[("event", &evkind), ("container", &cont)]), format!("{} on {} (signature returns Result) panicked under plan {:?}: {} at {}", evkind, cont, self.cfg.plan, msg, loc));
                             } else {
